@@ -78,12 +78,14 @@ from vgi_rpc.rpc._wire import (
     _deserialize_params,
     _drain_stream,
     _flush_collector,
+    _pending_log_metadata,
     _read_request,
     _validate_call_signature,
     _validate_params,
     _validate_result,
     _write_error_batch,
     _write_error_stream,
+    _write_log_metadata_batches,
     _write_result_batch,
     _write_stream_header,
 )
@@ -1146,7 +1148,7 @@ class RpcServer:
             error_type = _log_method_error(protocol_name, info.name, self._server_id, exc)
             error_message = str(exc)
             with contextlib.suppress(BrokenPipeError, OSError):
-                _write_error_stream(transport.writer, _EMPTY_SCHEMA, exc, server_id=self._server_id)
+                _write_error_stream(transport.writer, _EMPTY_SCHEMA, exc, server_id=self._server_id, sink=sink)
             if info.header_type is None:
                 # Without a header phase the client learns of the failure only
                 # when it reads the reply to its first input batch, so its
@@ -1195,6 +1197,7 @@ class RpcServer:
         input_reader = ValidatedReader(ipc.open_stream(transport.reader), self._ipc_validation)
 
         prev_input: AnnotatedBatch | None = None
+        pending_out: OutputCollector | None = None
         try:
             with new_ipc_stream(transport.writer, output_schema) as output_writer:
                 sink.flush_contents(output_writer, output_schema)
@@ -1273,10 +1276,12 @@ class RpcServer:
                             kind=self._transport_kind,
                             implementation=self._impl,
                         )
+                        pending_out = out
                         state.process(ab_in, out, process_ctx)
                         if not out.finished:
                             out.validate()
                         _flush_collector(output_writer, out, self._external_config, shm=shm)
+                        pending_out = None
                         if out.finished:
                             break
                         cumulative_bytes = out.total_data_bytes
@@ -1286,6 +1291,9 @@ class RpcServer:
                     error_type = _log_method_error(protocol_name, info.name, self._server_id, exc)
                     error_message = str(exc)
                     with contextlib.suppress(BrokenPipeError, OSError):
+                        # Logs the step emitted before it failed still belong
+                        # to the client (as they do for a unary call).
+                        _write_log_metadata_batches(output_writer, output_schema, _pending_log_metadata(pending_out))
                         _write_error_batch(output_writer, output_schema, exc, server_id=self._server_id)
                 finally:
                     # Release the final input before closing the output IPC
